@@ -29,7 +29,8 @@ Inductive cmd :=
 | CTags (o : nat)
 | CSetTags (o : nat) (d c : byte)
 | CFree (o : nat)
-| CErrString (n : N).
+| CErrString (n : N)
+| COpts (o : nat).
 
 Inductive out :=
 | ORc (e : econf_err)
@@ -47,6 +48,7 @@ Inductive out :=
 | ORead (e : econf_err) (valid : bool) (checked : list (str * bool)) (opened : list str)
 | OHist (e : econf_err) (files : list keyfile) (checked : list (str * bool)) (opened : list str)
 | OLoc (file : str) (line : N)
+| OOpts (join python : bool) (parse_dirs conf_dirs : list str) (root_prefix : option str)
 | ONoObj.
 
 Definition store := list (nat * keyfile).
@@ -145,6 +147,7 @@ Definition kstep (kf : keyfile) (c : cmd) : keyfile * out :=
   | CGetAll _ => (kf, OAll (all_queries kf))
   | CPath _ => (kf, OStr ECONF_SUCCESS (Some (get_path kf)))
   | CTags _ => (kf, OTags (kf_delim kf) (kf_comment kf))
+  | COpts _ => (kf, OOpts (kf_join kf) (kf_python kf) (kf_parse_dirs kf) (kf_conf_dirs kf) (kf_root_prefix kf))
   | CSetTags _ d c' => (set_tags kf d c', ORc ECONF_SUCCESS)
   | _ => (kf, ONoObj)
   end.
@@ -186,7 +189,7 @@ Definition step (s : store) (c : cmd) : store * out :=
       | None => (s, ONoObj)
       end
   | CSet o _ _ _ _ _ | CGet o _ _ _ _ | CGetExt o _ _ | CGroups o | CKeys o _
-  | CWrite o | CDump o | CGetAll o | CPath o | CTags o | CSetTags o _ _ =>
+  | CWrite o | CDump o | CGetAll o | CPath o | CTags o | COpts o | CSetTags o _ _ =>
       match sget s o with
       | Some kf => let '(kf', r) := kstep kf c in (sput s o kf', r)
       | None =>
